@@ -65,6 +65,8 @@ type Step struct {
 	Ms int64
 	// seq: a sequence of steps executed as one (used as the nested step of a gate)
 	Sub []*Step
+	// commit / rollback while an aggressive-locking attempt is open: finish it with Done (true) or Cancel
+	AggrDone bool
 }
 
 func (s *Step) String() string {
@@ -291,6 +293,9 @@ func (w *World) Exec(s *Step) {
 			c.Net.Restore(saved)
 		}()
 	}
+	if txn.IsInAggressiveLockingMode() && (s.Op == "set" || s.Op == "insert" || s.Op == "delete") {
+		return // a statement attempt only locks; its writes come after the attempt is done
+	}
 	switch s.Op {
 	case "get":
 		v, err := txn.Get(ctx, []byte(s.Keys[0]))
@@ -483,8 +488,36 @@ func (w *World) Exec(s *Step) {
 			}
 		}
 		sort.Strings(locked)
+		if txn.IsInAggressiveLockingMode() {
+			// locks of a statement attempt stay provisional until the attempt is done (kept) or cancelled (released)
+			for _, k := range locked {
+				t.AggrCur[k] = fu
+				delete(t.AggrPrev, k)
+			}
+			return
+		}
 		t.Locks = append(t.Locks, LockRec{Keys: locked, ForUpdateTS: fu, Step: w.StepNo})
+	case "aggr-start":
+		if !t.Pessimistic || txn.IsInAggressiveLockingMode() {
+			return
+		}
+		txn.StartAggressiveLocking()
+		t.AggrCur, t.AggrPrev = map[string]uint64{}, map[string]uint64{}
+	case "aggr-retry":
+		if !txn.IsInAggressiveLockingMode() {
+			return
+		}
+		txn.RetryAggressiveLocking(ctx)
+		t.AggrPrev, t.AggrCur = t.AggrCur, map[string]uint64{}
+	case "aggr-done", "aggr-cancel":
+		if !txn.IsInAggressiveLockingMode() {
+			return
+		}
+		w.endAggressive(t, txn, s.Op == "aggr-done")
 	case "commit":
+		if txn.IsInAggressiveLockingMode() {
+			w.endAggressive(t, txn, s.AggrDone)
+		}
 		t.CommitStep[0] = w.StepNo
 		cctx := context.WithValue(ctx, util.SessionID, uint64(t.ID+1))
 		t.MaxTSOBeforeCommit = w.Cl.MaxIssued()
@@ -512,6 +545,9 @@ func (w *World) Exec(s *Step) {
 			w.Log = append(w.Log, fmt.Sprintf("  client %d died (told=%v)", c.ID, t.Told))
 		}
 	case "rollback":
+		if txn.IsInAggressiveLockingMode() {
+			w.endAggressive(t, txn, s.AggrDone)
+		}
 		_ = txn.Rollback()
 		t.EndEv = w.Cl.Trace.Event()
 		t.Ended = "rollback"
@@ -537,6 +573,28 @@ func (w *World) lockFirst(t *TxnRec, txn *transaction.KVTxn, c *Client, s *Step)
 	}
 	t.Locks = append(t.Locks, LockRec{Keys: []string{s.Keys[0]}, ForUpdateTS: fu, Step: w.StepNo})
 	return true
+}
+
+// endAggressive ends the open statement attempt: Done keeps the locks of the current attempt, Cancel releases all.
+func (w *World) endAggressive(t *TxnRec, txn *transaction.KVTxn, done bool) {
+	if done {
+		txn.DoneAggressiveLocking(context.Background())
+		var ks []string
+		var fu uint64
+		for k, f := range t.AggrCur {
+			ks = append(ks, k)
+			if f > fu {
+				fu = f
+			}
+		}
+		sort.Strings(ks)
+		if len(ks) > 0 {
+			t.Locks = append(t.Locks, LockRec{Keys: ks, ForUpdateTS: fu, Step: w.StepNo})
+		}
+	} else {
+		txn.CancelAggressiveLocking(context.Background())
+	}
+	t.AggrCur, t.AggrPrev = nil, nil
 }
 
 // settleFailedLock gives the asynchronous pessimistic rollback of a failed LockKeys time to finish before
@@ -578,6 +636,67 @@ func (w *World) Finish() (*Truth, error) {
 	}
 	w.Cl.Drain(3*time.Millisecond, 3*time.Second)
 	return w.Cl.ReadTruth(aud, w.Keys)
+}
+
+// Leftover is a lock found in the store that belongs to a transaction which has already ended.
+type Leftover struct {
+	Key   string
+	Start uint64
+	Type  string
+	Txn   int
+	Ended string
+}
+
+// Settle ends every open transaction by Rollback, then - WITHOUT letting any lock expire - waits until the
+// clients' background work has drained and reports the locks that ended transactions still own. A lock that is
+// still there after max of polling counts as left behind.
+func (w *World) Settle(max time.Duration) ([]Leftover, error) {
+	for _, id := range w.order {
+		t := w.Txns[id]
+		if t.Ended == "" {
+			c := w.Cl.Clients[t.Client]
+			if c.Net.Dead() {
+				t.Ended = "killed"
+				continue
+			}
+			h := w.handles[id]
+			if h.IsInAggressiveLockingMode() {
+				w.endAggressive(t, h, false)
+			}
+			_ = h.Rollback()
+			t.EndEv = w.Cl.Trace.Event()
+			t.Ended = "rollback"
+		}
+	}
+	aud := w.Cl.Clients[len(w.Cl.Clients)-1]
+	if w.Auditor != nil {
+		aud = w.Auditor
+	}
+	probe := tikv.StoreProbe{KVStore: aud.Store}
+	ended := map[uint64]*TxnRec{}
+	for _, t := range w.Txns {
+		if t.Ended == "rollback" || (t.Ended == "commit" && t.CommitClass != "undetermined") {
+			ended[t.StartTS] = t
+		}
+	}
+	deadline := time.Now().Add(max)
+	for {
+		w.Cl.Drain(3*time.Millisecond, time.Second)
+		locks, err := probe.ScanLocks(context.Background(), nil, scanEnd, math.MaxUint64)
+		if err != nil {
+			return nil, err
+		}
+		var left []Leftover
+		for _, l := range locks {
+			if t := ended[l.TxnID]; t != nil {
+				left = append(left, Leftover{string(l.Key), l.TxnID, l.LockType.String(), t.ID, t.Ended})
+			}
+		}
+		if len(left) == 0 || time.Now().After(deadline) {
+			return left, nil
+		}
+		time.Sleep(20 * time.Millisecond)
+	}
 }
 
 // ResolveAll resolves every lock in the key space through client c (locks are expected to be expired).
